@@ -47,7 +47,7 @@ func vfRoutingMicroScripts(property string) []vfMicroScript {
 	switch property {
 	case "C05":
 		// the proxy-id table as the sender uses it: an acknowledgement translated while the next entry is appended
-		return []vfMicroScript{vfSoloAckRace()}
+		return []vfMicroScript{vfSoloAckRace(), vfSoloEagerAck()}
 	case "C08":
 		// overlapping incarnations on the real handlers; "@baseline" marks the set-up state whose registry the state
 		// reached after the explored steps must equal (same set of live streams, newer incarnations)
@@ -109,6 +109,7 @@ func vfRoutingMicroScripts(property string) []vfMicroScript {
 		}}, InitHigh: 5, MaxWM: 1, MaxRepeat: 1, InOrder: true, Proxies: 2, PlaceT: []int{0, 1}, PlaceS: []int{0}}
 		return []vfMicroScript{
 			vfSoloAckRace(),
+			vfSoloEagerAck(),
 			// two proxy instances (source and target 1 on n1, target 2 on n2): a watermark-only batch goes to the local
 			// target stream and, over the intra-proxy stream, to the peer instance
 			{Name: "two-proxies-watermark", Scenario: duo, Setup: []string{"openT:1", "openT:2", "openS:1", "emit:1", "emit:1"},
@@ -140,6 +141,16 @@ func vfSoloAckRace() vfMicroScript {
 	}}, InitHigh: 5, MaxWM: 1, MaxRepeat: 1, InOrder: true}
 	return vfMicroScript{Name: "single-target-ack-races-next-batch", Scenario: solo, Setup: []string{"openT:1", "openS:1", "emit:1", "doneall:1"},
 		Steps: []string{"tick:1", "emit:1"}}
+}
+
+// vfSoloEagerAck: one target that acknowledges each batch while the proxy is still inside the Send that delivered it.
+func vfSoloEagerAck() vfMicroScript {
+	solo := &vfRouteScenario{Name: "micro-solo-eager", NS: 1, NT: 1, Scripts: [][]vfBatch{{
+		{IDs: []int64{10}, Tgt: []int{1}, High: 11},
+		{IDs: []int64{11}, Tgt: []int{1}, High: 12},
+	}}, InitHigh: 5, MaxWM: 1, MaxRepeat: 1, InOrder: true, EagerAck: true}
+	return vfMicroScript{Name: "single-target-acknowledges-inside-send", Scenario: solo, Setup: []string{"openT:1", "openS:1"},
+		Steps: []string{"emit:1", "emit:1"}}
 }
 
 // precondition of an environment step (the env goroutine blocks for real until it holds)
@@ -447,7 +458,9 @@ func (e *vfRouteExec) checkSettled(wait func()) {
 			return
 		}
 	}
-	for round := 0; round < 2; round++ {
+	for round := 0; round < 2 && !e.sc.EagerAck; round++ {
+		// (with eager acknowledgements every batch has been acknowledged already, once: the source's level may not
+		// depend on the acknowledgement being repeated)
 		for _, t := range e.tgt {
 			ts := t.cur()
 			for i := range ts.queue {
